@@ -25,6 +25,8 @@ def knot_names(shape):
 def new_ctx(shape, extra_names=(), sep=True, timeout_ms=20000):
     """Context with distinct knot symbols k0 < k1 < … (SEP apart) plus extra symbols."""
     names = knot_names(shape) + list(extra_names)
+    if REPLAY["point"] is not None:
+        return ConcreteCtx(names, REPLAY["point"])
     ctx = Ctx(names, timeout_ms=timeout_ms)
     kn = knot_names(shape)
     for a, b in zip(kn[:-1], kn[1:]):
@@ -234,6 +236,14 @@ PATH_TIMEOUT_S = int(__import__("os").environ.get("VERIF_PATH_TIMEOUT", "60"))
 
 def run_paths(ctx, fn_name, engine, tag, wb, body, allowed_exc=(), max_paths=400):
     import signal
+    if getattr(ctx, "concrete", False):           # native replay mode
+        chk = ConcreteChecker(ctx, fn_name, tag)
+        try:
+            body(chk)
+        except Exception as e:
+            chk.failed.append(("%s:no-exception" % fn_name, "%s: %s" % (type(e).__name__, str(e)[:200])))
+        REPLAY.setdefault("failed", []).extend((c, tag, d) for c, d in chk.failed)
+        return []
     old = signal.signal(signal.SIGALRM, _alarm)
     try:
         return _run_paths(ctx, fn_name, engine, tag, wb, body, allowed_exc, max_paths)
@@ -287,3 +297,105 @@ def _run_paths(ctx, fn_name, engine, tag, wb, body, allowed_exc=(), max_paths=40
 
 def frac_point(point):
     return {k: Fraction(v) for k, v in point.items()}
+
+
+# --------------------------------------------------------------------------------------
+# native replay of a symbolic task: the same contract body, but every symbol is the Fraction of the recorded point
+# and the library runs on plain Fractions (no symbolic objects)
+# --------------------------------------------------------------------------------------
+REPLAY = {"point": None}
+
+
+class ConcreteCtx:
+    concrete = True
+
+    def __init__(self, names, point):
+        self.names = list(names)
+        self.point = {k: Fraction(v) for k, v in point.items()}
+        self.zv = {n: z3.Real(n) for n in names}
+        self.base = []
+        self.pc, self.pc_desc, self.path = [], [], []
+        self.nonzero_elems = []
+        self.policy = None
+        self.nodecide = False
+        self.uncertain = False
+        self.kernels = []
+        self.stats = {}
+
+    def sym(self, name):
+        return self.point.get(name, Fraction(0))
+
+    def const(self, v):
+        return v
+
+    def must(self, b):
+        return bool(b)
+
+    entails = must
+
+    def sample_point(self, extra=None, seed=0):
+        return dict(self.point)
+
+    def _sat(self, z):
+        return z3.unknown
+
+    def vanishes_on_kernels(self, e):
+        return False
+
+
+class ConcreteChecker:
+    def __init__(self, ctx, fn, tag):
+        self.ctx, self.fn, self.tag = ctx, fn, tag
+        self.failed = []
+
+    def call(self, f, *a, **k):
+        return f(*a, **k)
+
+    def add(self, clause, ok, detail="", **kw):
+        if not ok and kw.get("status") != ERROR:
+            self.failed.append(("%s:%s" % (self.fn, clause), str(detail)[:300]))
+
+    def identities(self, clause, pairs, detail_ok="", tags=None):
+        bad = []
+        for label, a, b in pairs:
+            if isinstance(a, np.ndarray) and a.ndim == 0:
+                a = a.item()
+            try:
+                same = (a == b) and not isinstance(a, (float, np.floating))
+            except Exception:
+                same = False
+            if not same:
+                bad.append("%s: real code %s, spec %s" % (label, a, b))
+        if bad:
+            self.failed.append(("%s:%s" % (self.fn, clause), "; ".join(bad[:3])))
+        return not bad
+
+    def exact(self, clause, value):
+        nsym, nflt, ntaint = symbolic_in(value)
+        if nflt:
+            self.failed.append(("%s:%s" % (self.fn, clause), "%d machine floats in the result" % nflt))
+        return not nflt
+
+
+def generic_replay(o):
+    """Re-runs the task that produced obligation o natively at the recorded point. -> (reproduced, expected, observed)"""
+    import importlib
+    w = o["witness"]
+    mod, fname, args = w["task"]
+    args = [tuple(tuple(y) if isinstance(y, list) else y for y in a) if isinstance(a, list) else a for a in args]
+    task = getattr(importlib.import_module("vlib.props." + mod), fname)
+    REPLAY["point"] = {k: Fraction(v) for k, v in (w.get("point") or {}).items()}
+    REPLAY["failed"] = []
+    try:
+        task(*args)
+    finally:
+        failed = REPLAY.get("failed", [])
+        REPLAY["point"] = None
+    want = o["id"].split("[")[0]
+    tag = o["id"].split("[", 1)[1].split("|path")[0].rstrip("]") if "[" in o["id"] else ""
+    hits = [(c, t, d) for c, t, d in failed if c == want and (t == tag or not tag)]
+    other = [(c, t, d) for c, t, d in failed if c == want]
+    if hits or other:
+        h = (hits or other)[0]
+        return True, "obligation %s holds at the point %s" % (want, {k: str(v) for k, v in (w.get("point") or {}).items()}), "the real code, run on plain Fractions at this point, violates the clause: " + h[2]
+    return False, "obligation holds", "the obligation holds at the recorded point (%d other clauses failed there)" % len(failed)
